@@ -336,6 +336,19 @@ class Package:
         """the literal a class-level binding denotes when it is a (nested) tuple / list / set / dict of constants -- `tuple([..])`,
         `frozenset({..})` .. of such a literal included -- else None.  Tuples, sets and frozensets come back as tuples."""
         import copy
+        if isinstance(node, ast.BinOp) and isinstance(node.op, (ast.Add, ast.Sub, ast.Mult)):
+            # integer arithmetic on constants (`34 + 56` as a column bound) is the constant
+            l, r = Package._literal_table(node.left), Package._literal_table(node.right)
+            if isinstance(l, ast.Constant) and isinstance(r, ast.Constant) and type(l.value) is int and type(r.value) is int:
+                v = l.value + r.value if isinstance(node.op, ast.Add) else l.value - r.value if isinstance(node.op, ast.Sub) else l.value * r.value
+                return ast.copy_location(ast.Constant(value=v), node)
+            return None
+        if isinstance(node, ast.Call) and isinstance(node.func, ast.Name) and node.func.id == "slice" and 1 <= len(node.args) <= 3 and not node.keywords \
+                and any(isinstance(a, ast.BinOp) for a in node.args):
+            args = [Package._literal_table(a) for a in node.args]
+            if all(isinstance(a, ast.Constant) and (a.value is None or type(a.value) is int) for a in args):
+                return ast.copy_location(ast.Call(func=copy.deepcopy(node.func), args=args, keywords=[]), node)
+            return None
         if isinstance(node, ast.Call) and isinstance(node.func, ast.Name) and node.func.id in ("tuple", "list", "frozenset", "set") and len(node.args) == 1 and not node.keywords:
             inner = Package._literal_table(node.args[0])
             if isinstance(inner, (ast.Tuple, ast.List)):
